@@ -576,3 +576,45 @@ Qed.
 Theorem generate_is_rowmajor_product s :
   wf_sweep s = true -> in_item_order s = true -> generate s = spec_list s.
 Proof. intros H1 H2. apply generate_is_spec; [assumption|now apply in_item_order_order_ok]. Qed.
+
+(* ---------- dims = a permutation of the item keys given as plain strings ---------- *)
+Definition set_dims (s : sweep) (d : option (list dimg)) : sweep :=
+  {| items := items s; dims := d; excl := excl s; consts := consts s; ders := ders s |}.
+
+Lemma finish_all_set_dims s d b : finish_all (set_dims s d) b = finish_all s b.
+Proof. induction b as [|c b IH]; [reflexivity|]. cbn [finish_all]. now rewrite IH. Qed.
+
+Lemma wf_singles it : NoDup (dkeys it) -> wf_groups it (singles (dkeys it)) = true.
+Proof.
+  intros H. unfold wf_groups. rewrite concat_singles. rewrite (proj2 (nodup_str_NoDup _) H). cbn [andb].
+  apply forallb_forall. intros g Hg. unfold singles in Hg. apply in_map_iff in Hg as [k [<- Hk]].
+  unfold wf_group. cbn [negb andb forallb glen]. rewrite (proj2 (dhas_In it k) Hk), Nat.eqb_refl. reflexivity.
+Qed.
+
+(* the code then enumerates in item order: exactly the documented list of the same sweep with dims omitted *)
+Theorem generate_permuted s d :
+  wf_sweep s = true -> dims s = Some d -> dims_is_keyset d (dkeys (items s)) = true ->
+  generate s = spec_list (set_dims s None) /\ wf_sweep (set_dims s None) = true
+  /\ in_item_order (set_dims s None) = true.
+Proof.
+  intros Hwf Hd Hk. destruct (wf_sweep_parts _ Hwf) as [Hg [Hkc Hkd]].
+  assert (Hnd : NoDup (dkeys (items s))).
+  { unfold wf_groups in Hg. apply andb_true_iff in Hg as [Hg _]. apply andb_true_iff in Hg as [Hg _].
+    now apply nodup_str_NoDup. }
+  assert (Hwf' : wf_sweep (set_dims s None) = true).
+  { change (wf_groups (items s) (singles (dkeys (items s))) && nodup_str (opt_keys (consts s))
+            && nodup_str (opt_keys (ders s)) = true).
+    rewrite (wf_singles _ Hnd). cbn [andb].
+    now rewrite (proj2 (nodup_str_NoDup _) Hkc), (proj2 (nodup_str_NoDup _) Hkd). }
+  assert (Hord : in_item_order (set_dims s None) = true).
+  { change (subseq_str (concat (singles (dkeys (items s)))) (dkeys (items s)) = true).
+    rewrite concat_singles. clear. induction (dkeys (items s)) as [|k l IH]; [reflexivity|].
+    cbn. now rewrite str_eqb_refl. }
+  split; [|split; assumption].
+  rewrite <- (generate_is_rowmajor_product _ Hwf' Hord).
+  assert (Hc : items s = [] \/ items s <> []) by (destruct (items s); [now left|right; discriminate]).
+  destruct Hc as [Hnil|Hne].
+  - now rewrite !generate_nil.
+  - rewrite !generate_cons by assumption. unfold base_combos. cbn [set_dims dims items]. rewrite Hd, Hk.
+    cbn [bind]. now rewrite finish_all_set_dims.
+Qed.
